@@ -356,6 +356,21 @@ class AsyncStatic:
         return self.inner.expand(roles)
 
 
+class AwaitableStatic:
+    """answers with an awaitable that is not a coroutine object (a Future-like): still 'an async resolver'"""
+
+    def __init__(self, graph):
+        self.inner = StaticRoleResolver(graph)
+
+    def expand(self, roles):
+        return real._Awaitable(self.inner.expand(roles))
+
+
+class AwaitableRaising:
+    def expand(self, roles):
+        return real._Awaitable(exc=RuntimeError("resolver down"))
+
+
 class Raising:
     def expand(self, roles):
         raise RuntimeError("resolver down")
@@ -387,7 +402,10 @@ class Revoking:
         return []
 
 
-KINDS = ["static", "static-async", "raise", "raise-async", "none", "static+cache", "static+flap+cache", "answers-empty"]
+# "+swap": the Guard starts with a resolver that answers with no roles, is evaluated once, then `role_resolver` is replaced by the
+# static resolver and the same request is evaluated again; what is judged is the SECOND evaluation
+KINDS = ["static", "static-async", "raise", "raise-async", "none", "static+cache", "static+flap+cache", "answers-empty",
+         "static-awaitable", "raise-awaitable", "static+swap"]
 FLAVOURS = ["sync", "async", "async-collab-async", "sync-in-loop"]
 R = {"attr": "subject.roles"}
 
@@ -396,7 +414,8 @@ def make_resolver(kind: str, graph: dict):
     return {"static": lambda: StaticRoleResolver(graph), "static-async": lambda: AsyncStatic(graph),
             "raise": Raising, "raise-async": AsyncRaising, "none": lambda: None,
             "static+cache": lambda: StaticRoleResolver(graph), "static+flap+cache": lambda: Flapping(graph),
-            "answers-empty": Revoking}[kind]()
+            "answers-empty": Revoking, "static-awaitable": lambda: AwaitableStatic(graph), "raise-awaitable": AwaitableRaising,
+            "static+swap": Revoking}[kind]()
 
 
 PREDS = {
@@ -443,6 +462,17 @@ def engine_real(graph: dict, roles, policy: dict, kind: str, flavour: str) -> di
         cfg["resolver"] = res
     try:
         with deadline(10.0):
+            if "+swap" in kind:
+                events = []
+                try:
+                    g = real.make_guard(policy, cfg, events, flavour=flavour)
+                    real.call_guard(g, make_req(roles), flavour)
+                    g.role_resolver = StaticRoleResolver(graph)
+                    del events[:]
+                    d = real.call_guard(g, make_req(roles), flavour)
+                except Exception as e:  # noqa: BLE001
+                    return {"raised": real.exc_class(e)}
+                return {"ok": real.render_decision(d, list(events))}
             if "+cache" not in kind:
                 return real.run_guard(policy, make_req(roles), cfg, flavour)
             from rbacx.core.cache import DefaultInMemoryCache
